@@ -194,6 +194,32 @@ func checkMsg(m *dns.Msg, wf bool, emit bool) {
 		}
 		copy(w, wc)
 	}
+	// the octets do not depend on what the caller's buffer held before (a pooled, reused buffer)
+	for _, fill := range []byte{0x7e, 0xff} {
+		dirty := bytes.Repeat([]byte{fill}, len(w)+300)
+		var w3 []byte
+		if Protect(func() string {
+			b, err := m.PackBuffer(dirty)
+			if err != nil {
+				return "err"
+			}
+			w3 = b
+			return "ok"
+		}) == "ok" && !bytes.Equal(w3, w) {
+			Viol("C01/msg/pack-depends-on-buffer-content", "PackBuffer into a buffer that is not zeroed gives other octets than Pack", map[string]string{"msg": before, "pack": Hx(w), "packbuffer": Hx(w3)})
+		}
+		for _, sec := range [][]dns.RR{m.Answer, m.Ns, m.Extra} {
+			for _, rr := range sec {
+				clean, dirt := make([]byte, 70000), bytes.Repeat([]byte{fill}, 70000)
+				o1, e1 := dns.PackRR(rr, clean, 0, nil, false)
+				o2, e2 := dns.PackRR(rr, dirt, 0, nil, false)
+				if e1 == nil && e2 == nil && !bytes.Equal(clean[:o1], dirt[:o2]) {
+					t, _ := RRText(rr)
+					Viol("C01/rr/pack-depends-on-buffer-content", "PackRR into a buffer that is not zeroed gives other octets", map[string]string{"rr": t, "clean": Hx(clean[:o1]), "dirty": Hx(dirt[:o2])})
+				}
+			}
+		}
+	}
 	// converse on canonical uncompressed octets
 	if !m.Compress {
 		m2.Compress = false
@@ -533,6 +559,34 @@ func run(r *Rng, tier string, n int) {
 		}
 		st["private_multi_checked"]++
 		dns.PrivateHandleRemove(code)
+	}
+	// type bitmaps spanning several windows (types >= 256: URI, CAA, AVC, TA, DLV, private-use) in NSEC, NSEC3
+	// and CSYNC; and the deepest compression chain the packer can produce (one pointer per label of a
+	// 127-label name): Unpack must read back what Pack wrote
+	{
+		for _, bm := range [][]uint16{{1, 46, 47, 257}, {257}, {1, 256, 512, 1024, 65280}, {255, 256}, {1, 32769, 65534}, {2, 6, 46, 47, 256, 257, 258, 32768}} {
+			m := new(dns.Msg)
+			m.SetQuestion("bm.example.", dns.TypeNSEC)
+			m.Answer = []dns.RR{
+				&dns.TXT{Hdr: dns.RR_Header{Name: "bm.example.", Rrtype: dns.TypeTXT, Class: 1, Ttl: 5}, Txt: []string{strings.Repeat("~", 200)}},
+				&dns.NSEC{Hdr: dns.RR_Header{Name: "bm.example.", Rrtype: dns.TypeNSEC, Class: 1, Ttl: 5}, NextDomain: "c.example.", TypeBitMap: bm},
+				&dns.NSEC3{Hdr: dns.RR_Header{Name: "h.example.", Rrtype: dns.TypeNSEC3, Class: 1, Ttl: 5}, Hash: 1, Iterations: 1, SaltLength: 1, Salt: "ab", HashLength: 20, NextDomain: "2t7b4g4vsa5smi47k61mv5bv1a22bojr", TypeBitMap: bm},
+				&dns.CSYNC{Hdr: dns.RR_Header{Name: "bm.example.", Rrtype: dns.TypeCSYNC, Class: 1, Ttl: 5}, Serial: 1, Flags: 3, TypeBitMap: bm},
+			}
+			checkMsg(m, true, false)
+			st["multi_window_bitmap_messages"]++
+		}
+		m := new(dns.Msg)
+		m.Compress = true
+		m.SetQuestion("a.", dns.TypeA)
+		name := ""
+		for i := 0; i < 127; i++ {
+			name = "a." + name
+			m.Answer = append(m.Answer, &dns.A{Hdr: dns.RR_Header{Name: name, Rrtype: dns.TypeA, Class: 1, Ttl: 5}, A: net.IPv4(192, 0, 2, byte(i)).To4()})
+		}
+		m.Answer = append(m.Answer, &dns.NS{Hdr: dns.RR_Header{Name: name, Rrtype: dns.TypeNS, Class: 1, Ttl: 5}, Ns: name})
+		checkMsg(m, true, false)
+		st["deepest_pointer_chain_messages"]++
 	}
 	// (2) character-string and octet fields with backslashes (escape handling on both sides)
 	for i := 0; i < 40; i++ {
